@@ -18,7 +18,7 @@ var methodsC08 = []string{"GET", "POST", "CONNECT", "HEAD"}
 func init() {
 	register(&Prop{
 		ID: "C08", Level: "exploration",
-		Rule: "one case = a router shaped by a seeded mutation history over a pool as in C01, with global and per-route ignore/redirect trailing-slash options drawn per run and per route, methods GET/POST/CONNECT/HEAD; probes are instantiated patterns with the trailing slash toggled, perturbed, and (sub-batch) with percent-encoded targets whose parameter values contain ':', '?', '#', '%', space and non-ASCII bytes, with and without query strings. Oracle per probe: the reference dispatcher (no action on a direct match; the highest-priority slash-adjusted route with the parameters of the adjusted match; hostname-mode action before path-only fallback; ignore serves; redirect only for clean paths, never for CONNECT or '/', 301 for GET else 308); every redirect is followed inside the simulation: Location is resolved against the request URL, must stay on the same host, keep the query string, and the resolved request must be served directly by the adjusted route with the adjusted parameters. Lookup/Reverse must report the same route and tsr flag. Metamorphic clause: a second router holding only the routes that match the path or its slash-adjusted form gives the same outcome. Non-trivial: at least 2 probes had no direct match but a slash-adjusted candidate; distinct = hash of (final set, options, probes).",
+		Rule: "one case = a router shaped by a seeded mutation history over a pool as in C01, with global and per-route ignore/redirect trailing-slash options drawn per run and per route, methods GET/POST/CONNECT/HEAD; probes are instantiated patterns with the trailing slash toggled, perturbed, ending in a run of slashes, the empty path of an absolute-form target without a path (one slash short of the root pattern, which one pool in five holds), and (sub-batch) with percent-encoded targets whose parameter values contain ':', '?', '#', '%', space and non-ASCII bytes, with and without query strings. Oracle per probe: the reference dispatcher (no action on a direct match; the highest-priority slash-adjusted route with the parameters of the adjusted match; hostname-mode action before path-only fallback; ignore serves; redirect only for clean paths, never for CONNECT or '/', 301 for GET else 308); every redirect is followed inside the simulation: Location is resolved against the request URL, must stay on the same host, keep the query string, and the resolved request must be served directly by the adjusted route with the adjusted parameters. Lookup/Reverse must report the same route and tsr flag. Metamorphic clause: a second router holding only the routes that match the path or its slash-adjusted form gives the same outcome. Non-trivial: at least 2 probes had no direct match but a slash-adjusted candidate; distinct = hash of (final set, options, probes).",
 		Run:  runC08, Quick: 96000, Thorough: 12800000,
 		Real: commonReal, Stub: commonStub,
 		Tolerances: []string{"leading_slash_capture as in C01", "a redirect is not followed when the request's escaped path contains a byte net/url would itself escape (e.g. |): reference resolution re-encodes it"},
@@ -86,6 +86,9 @@ func (rr *routingRun) checkTSR(p world.Probe, rawPath, rawQuery, where string) {
 		if mA.ViaHost {
 			res.inc("probe_tsr_via_host")
 		}
+		if p.Path == "" {
+			res.inc("empty_path_with_root_candidate")
+		}
 	}
 	// 1. which route (and flag, and parameters) does fox select?
 	lk := rr.lookupRaw(p, rawPath)
@@ -116,8 +119,8 @@ func (rr *routingRun) checkTSR(p world.Probe, rawPath, rawQuery, where string) {
 			eff = model.MatchResult{}
 		}
 	}
-	// 2. Reverse agrees with Lookup
-	if rawPath == "" {
+	// 2. Reverse agrees with Lookup (Reverse takes a path string and reads the empty string as "/": not compared)
+	if rawPath == "" && p.Path != "" {
 		rv := world.ObsReverse(rr.w.R, p)
 		if rv.Tag != lk.Tag || rv.TSR != lk.TSR {
 			res.fail("C08/entry-points-disagree", "%s", rr.tsrDetail(p, rawPath, rawQuery, where, "Reverse", rv.String(), "Lookup says "+lk.String()))
@@ -439,6 +442,12 @@ func runC08(src sim.Source, o Opts) *Result {
 				} else {
 					p.Path += "/"
 				}
+			}
+			if src.Intn("emptypath", 16) == 0 {
+				// an absolute-form request target without a path ("GET http://host HTTP/1.1") arrives with an empty
+				// URL path: a path other than '/', one slash short of the root
+				p.Path = ""
+				res.inc("probes_with_empty_path")
 			}
 			hasCatchAll := false
 			for _, rt := range rr.set.Routes() {
